@@ -520,3 +520,9 @@ S("syntax-benign-match-config", ["C10"], (VR, '        if config["EVAL_UNSEEN_CA
   '        match config["EVAL_UNSEEN_CATEGORIES"]:\n            case "error":\n                difference = [str(x) for x in difference]\n                raise ValueError('),
   note="only the first line of the branch is re-indented: does not compile -> skipped")
 VARIANTS.pop()
+S("syntax-benign-suppress-lookup", ["C11", "C07"], (EV, "            try:\n                return d[key]\n            except KeyError:\n                pass\n",
+  "            with suppress(KeyError):\n                return d[key]\n"), (EV, "import inspect", "import inspect\nfrom contextlib import suppress"))
+S("syntax-benign-map-attrgetter-varnames", ["C09", "C08"], (TT,
+  "        var_names = set().union(*[component.var_names for component in self.components])",
+  "        var_names = set().union(*map(attrgetter(\"var_names\"), self.components))"),
+  (TT, "from copy import deepcopy", "from copy import deepcopy\nfrom operator import attrgetter"))
